@@ -39,18 +39,27 @@ def replay_one(task):
     return classify_check_schema(d, S)
 
 
+TUPLE_CANDS = [{"type": ("string", "null")}, {"enum": (1, 2)}, {"items": ({"type": "integer"},)},
+               {"required": ("a", "b")}, {"allOf": ({},)}, {"properties": {"a": {"enum": (1,)}}}]
+
+
 def _after_derivation(tasks):
     """in a fresh process: derive a registered dialect from every draft class (extend(version=...) re-binds the draft's
-    metaschema id to the new class), give it a much laxer metaschema with the same id, then ask the ORIGINAL classes"""
+    metaschema id to the new class) whose arrays admit tuples, give it a much laxer metaschema with the same id, then ask
+    the ORIGINAL classes.  Candidates written with tuples (no JSON arrays for the stock classes) are asked before and
+    after."""
     import copy
     import jsonschema
     from jsonschema import validators
+    before = [[classify_check_schema(d, S) [0] for S in TUPLE_CANDS] for d in DRAFTS]
     for d, cls in _cls().items():
-        derived = validators.extend(cls, validators={"x-lax": lambda *a: iter(())}, version="verif-lax-%d" % d)
+        derived = validators.extend(cls, validators={"x-lax": lambda *a: iter(())}, version="verif-lax-%d" % d,
+                                    type_checker=cls.TYPE_CHECKER.redefine("array", lambda c, x: isinstance(x, (list, tuple))))
         lax = {k: copy.deepcopy(v) for k, v in cls.META_SCHEMA.items() if k in ("id", "$id", "$schema", "type")}
         derived.META_SCHEMA = lax
         derived.check_schema({"properties": {"a": {"minLength": "three"}}})       # the dialect itself is in use
-    return [classify_check_schema(d, S) for d, S, acc in tasks]
+    after = [[classify_check_schema(d, S)[0] for S in TUPLE_CANDS] for d in DRAFTS]
+    return [classify_check_schema(d, S) for d, S, acc in tasks], before, after
 
 
 def after_derivation(tasks):
@@ -154,7 +163,15 @@ def main(args):
     nested = [t for t in tasks if isinstance(t[1], dict) and any(isinstance(v, (dict, list)) and v for v in t[1].values())]
     ck.rng.shuffle(nested)
     nested = nested[:4000 if quick else 60000]
-    for (d, S, acc), (out, info) in zip(nested, after_derivation(nested)):
+    answers, before, after = after_derivation(nested)
+    for di, d in enumerate(DRAFTS):
+        for S, b, a in zip(TUPLE_CANDS, before[di], after[di]):
+            ck.count((d, repr(S), "tuple-candidate"), True)
+            if b != a:
+                ck.violation("accept_mismatch_after_derivation", {
+                    "draft": d, "candidate": repr(S), "check_schema_before": b, "check_schema": a,
+                    "history": "a dialect whose arrays admit tuples was derived with extend(DraftNValidator, version=...) in between"})
+    for (d, S, acc), (out, info) in zip(nested, answers):
         ck.count((d, repr(S), "after-derivation"), True)
         if out == "other" or (out == "ok") != bool(acc):
             ck.violation("accept_mismatch_after_derivation", {
